@@ -24,10 +24,14 @@ warnings.filterwarnings("ignore")
 MODULES = {
     "C01": ("mcx.checks.c01", {"pid": "C01"}),
     "C05": ("mcx.checks.c01", {"pid": "C05"}),
+    "C03": ("mcx.checks.c03", {}),
     "C04": ("mcx.checks.c04", {}),
+    "C06": ("mcx.checks.c06", {}),
     "C08": ("mcx.checks.c08", {}),
     "C10": ("mcx.checks.c10", {}),
     "C12": ("mcx.checks.c12", {}),
+    "C13": ("mcx.checks.c13", {}),
+    "C14": ("mcx.checks.c14", {}),
     "C19": ("mcx.checks.c19", {}),
 }
 
